@@ -235,7 +235,9 @@ def gen_random(rng, mode):
     opts["minPos"] = mn
     if rng.random() < 0.6:
         base = mn if mn is not None else 0
-        opts["maxPos"] = base + rng.choice([10, 50, 100.5, 300, 904, 2000])
+        opts["maxPos"] = base + rng.choice([10, 50, 100.5, 300, 904, 2000, 0])      # 0: both bounds equal (an empty band)
+        if rng.random() < 0.1 and labels:
+            opts["maxPos"] = base + max(w for _, w in labels)                         # the band is exactly as wide as the widest label
     else:
         opts["maxPos"] = None
     return {"labels": labels, "opts": opts}
